@@ -91,9 +91,14 @@ def computeAligned (o : Opts) (m : Nat) : Nat :=
 /-- `__format_line`: the number of blanks between key and value -/
 def padOf (aligned : Nat) (key : Str) : Nat := if aligned = 0 then 1 else aligned - key.length
 
+def isBlockValue : J → Bool
+  | .dict _ => true
+  | .list _ => true
+  | _ => false
+
 def isComplexType (level : Nat) (k : Str) (v : J) : Bool :=
   if k = s%"symbol" && level > 0 then false
-  else k ∈ Gen.complexTypes || isHiddenContainer k v
+  else (k ∈ Gen.complexTypes && isBlockValue v) || isHiddenContainer k v
 
 /-- `separate_complex`: successive `move_to_end` of the complex keys = stable partition -/
 def separateComplex (level : Nat) (f : Fields) : Fields :=
@@ -186,17 +191,21 @@ def attrComment (comments : Fields) (k : Str) : Res Str :=
     | none => .error .unsupported
   | some v => if truthy v then .error .unsupported else .ok []
 
-/-- `_add_type_comment`: comment lines above a block opener (skipped when the joined text is empty) -/
-def typeComment (o : Opts) (level : Nat) (comments : Fields) : Res (List Line) :=
+/-- the comment strings attached to a block's opener (`comments["__type__"]`), independent of options -/
+def typeCommentTexts (comments : Fields) : Res (List Str) :=
   match lookup s%"__type__" comments with
   | none => .ok []
-  | some (.str s) => if ws o level ++ s = [] then .ok [] else .ok [⟨.comment, level, s, 0, [], []⟩]
+  | some (.str s) => .ok [s]
   | some (.list xs) => match strList xs with
-    | some ss =>
-      if joinWith o.newline (ss.map (ws o level ++ ·)) = [] then .ok []
-      else .ok (ss.map fun s => ⟨.comment, level, s, 0, [], []⟩)
+    | some ss => .ok ss
     | none => .error .unsupported
   | some _ => .error .unsupported
+
+/-- `_add_type_comment`: comment lines above a block opener (skipped when the joined text is empty) -/
+def typeComment (o : Opts) (level : Nat) (comments : Fields) : Res (List Line) :=
+  (typeCommentTexts comments).map fun ss =>
+    if joinWith o.newline (ss.map (ws o level ++ ·)) = [] then []
+    else ss.map fun s => ⟨.comment, level, s, 0, [], []⟩
 
 def commentsOf (f : Fields) : Res Fields :=
   match lookup s%"__comments__" f with
